@@ -1,9 +1,63 @@
 package main
 
+import (
+	"encoding/json"
+	"fmt"
+	"os"
+	"os/exec"
+	"path/filepath"
+)
+
 // placeholders extended later (reflect shim, more stubs)
 
 type RVal struct{}
 type RType struct{ t interface{ String() string } }
 
 
-func (eng *Engine) computeInjectedImpl(repo string) error { return nil }
+// computeInjectedImpl obtains the two registry scalars the palette code reads
+// from packages whose init is not executed symbolically (DESIGN 3.3): a native
+// run against the current tree prints them.
+func (eng *Engine) computeInjectedImpl(repo string) error {
+	if eng.prog.ImportedPackage(modPath+"/level/block") == nil {
+		return nil
+	}
+	tmp, err := os.MkdirTemp(filepath.Join(verifDir, "out"), "inject-")
+	if err != nil {
+		os.MkdirAll(filepath.Join(verifDir, "out"), 0o755)
+		if tmp, err = os.MkdirTemp(filepath.Join(verifDir, "out"), "inject-"); err != nil {
+			return err
+		}
+	}
+	defer os.RemoveAll(tmp)
+	src := `package main
+
+import (
+	"fmt"
+
+	"github.com/Tnze/go-mc/level/biome"
+	"github.com/Tnze/go-mc/level/block"
+)
+
+func main() { fmt.Println(block.BitsPerBlock, biome.BitsPerBiome) }
+`
+	mainFile := filepath.Join(tmp, "main.go")
+	if err := os.WriteFile(mainFile, []byte(src), 0o644); err != nil {
+		return err
+	}
+	ov, _ := json.Marshal(map[string]interface{}{"Replace": map[string]string{filepath.Join(repo, "internal/zzvpmain/main.go"): mainFile}})
+	ovFile := filepath.Join(tmp, "overlay.json")
+	os.WriteFile(ovFile, ov, 0o644)
+	cmd := exec.Command("go", "run", "-overlay", ovFile, "./internal/zzvpmain")
+	cmd.Dir = repo
+	cmd.Env = append(os.Environ(), "GOFLAGS=-mod=mod", "GOPROXY=off", "GOSUMDB=off", "GOTOOLCHAIN=local")
+	out, err := cmd.CombinedOutput()
+	if err != nil {
+		return fmt.Errorf("%v: %s", err, out)
+	}
+	var a, b uint64
+	if _, err := fmt.Sscan(string(out), &a, &b); err != nil {
+		return fmt.Errorf("unexpected output %q", out)
+	}
+	eng.injected = map[string]uint64{modPath + "/level/block.BitsPerBlock": a, modPath + "/level/biome.BitsPerBiome": b}
+	return nil
+}
